@@ -84,7 +84,7 @@ def run(m, chk):
         "Static discharge of structural clauses of C18: normalize does not obtain the upper limit as x * (1/x) (rule R: IEEE arithmetic does not round that to 1 for every x, x / x does); shift / scale / normalize commit once, "
         "last (through the validated setter); generator results depend on degree, npts and cls / weights. Spacing, simplicity of interior knots and invariance of evaluation under reparametrisation are not decided."
     )
-    chk.decides = ["CLAMP-SAME (the trailing clamped copies of weight() are the last cumulative knot itself)", "NP-SCALAR (elements of numpy arrays are converted with int() / float() before cls(...) sees them)", "TOL-ABSOLUTE (knot identity is decided on differences, never with a tolerance relative to the knots)", "E8 (exact knots stay exact under shift / scale / normalize and in the generators with cls = Fraction)", "R (no multiplication by a reciprocal of an own element)", "COMMIT-LAST(shift, scale, normalize)", "DEP-MAY of the generators", 'NORMALIZE-PATHS', 'SIBLING-CAST (weight() converts no weight to the class of another weight)']
+    chk.decides = ["SAMPLE-COUNT (the random weights of random(p, n) are drawn by a call that is given npts - degree, never cut out of an array of fixed length)", "CLAMP-SAME (the trailing clamped copies of weight() are the last cumulative knot itself)", "NP-SCALAR (elements of numpy arrays are converted with int() / float() before cls(...) sees them)", "TOL-ABSOLUTE (knot identity is decided on differences, never with a tolerance relative to the knots)", "E8 (exact knots stay exact under shift / scale / normalize and in the generators with cls = Fraction)", "R (no multiplication by a reciprocal of an own element)", "COMMIT-LAST(shift, scale, normalize)", "DEP-MAY of the generators", 'NORMALIZE-PATHS', 'SIBLING-CAST (weight() converts no weight to the class of another weight)']
     chk.not_decided = ["equal spacing / simple interior knots", "N_i over s*U+a at s*u+a equals N_i over U at u"]
     q = KV + "normalize"
     ctx = r.root(q)
@@ -102,6 +102,9 @@ def run(m, chk):
         chk.ob("R", f"{q}: `{seg(node, 40)}` does not multiply by the reciprocal of an element of the same vector", not bad, loc=r.loc(ctx, node),
                detail="" if not bad else f"{q}: `{seg(node, 50)}` multiplies every knot by `{seg(arg, 30)}`: the last knot becomes x * (1/x), which IEEE arithmetic does not round to exactly 1 for every x (e.g. 49.0) — the interval is not exactly [0, 1]; divide instead",
                func=q, construct="scale by reciprocal of own element")
+    from .extra import sample_count
+
+    sample_count(r, chk)
     from .extra import normalize_paths
 
     normalize_paths(r, chk)
